@@ -140,11 +140,12 @@ func gen(t *rapid.T) scen.Case {
 	return c
 }
 
-// bigFileCase: a protected file larger than 1 GiB (single read()/write() calls are capped at about 1-2 GiB by the OS and the Go runtime).
+// bigFileCase: a protected file larger than 4 GiB (single read()/write() calls are capped at about 1-2 GiB by the OS and the
+// Go runtime; offsets and lengths no longer fit into 32 bits).
 func bigFileCase() string {
 	root := run.Scratch("c03big")
 	defer os.RemoveAll(root)
-	size := 1<<30 + 4096
+	size := 1<<32 + 4096
 	data := make([]byte, size)
 	for o := 0; o < size; o += 1 << 20 {
 		binary.LittleEndian.PutUint64(data[o:], uint64(o)+0x1122334455)
@@ -154,26 +155,26 @@ func bigFileCase() string {
 		return "" // not enough scratch space: skip silently (thorough tier only)
 	}
 	idx := filepath.Join(root, "set.par2")
-	if err := par2.Create(idx, []string{p}, par2.CreateOptions{SliceByteCount: 64 << 20, NumParityShards: 1, NumGoroutines: 8}); err != nil {
-		return "Create failed on a file above 1 GiB: " + err.Error()
+	if err := par2.Create(idx, []string{p}, par2.CreateOptions{SliceByteCount: 128 << 20, NumParityShards: 1, NumGoroutines: 8}); err != nil {
+		return "Create failed on a file above 4 GiB: " + err.Error()
 	}
 	r, err := par2.Verify(idx, par2.VerifyOptions{NumGoroutines: 8})
 	if err != nil {
-		return "Verify failed on an untouched file above 1 GiB: " + err.Error()
+		return "Verify failed on an untouched file above 4 GiB: " + err.Error()
 	}
-	if r.ShardCounts.UsableDataShardCount != 17 || r.ShardCounts.UnusableDataShardCount != 0 || r.ShardCounts.RepairNeeded() {
-		return fmt.Sprintf("untouched 1 GiB + 4 KiB file: Verify counts %+v, want 17 usable / 0 unusable and no repair needed", r.ShardCounts)
+	if r.ShardCounts.UsableDataShardCount != 33 || r.ShardCounts.UnusableDataShardCount != 0 || r.ShardCounts.RepairNeeded() {
+		return fmt.Sprintf("untouched 4 GiB + 4 KiB file: Verify counts %+v, want 33 usable / 0 unusable and no repair needed", r.ShardCounts)
 	}
-	// damage beyond the first GiB must be noticed
+	// damage beyond the first 4 GiB must be noticed
 	f, _ := os.OpenFile(p, os.O_WRONLY, 0)
-	f.WriteAt([]byte{0xff}, 1<<30+100)
+	f.WriteAt([]byte{0xff}, 1<<32+100)
 	f.Close()
 	r, err = par2.Verify(idx, par2.VerifyOptions{NumGoroutines: 8})
 	if err != nil {
 		return "Verify failed: " + err.Error()
 	}
 	if r.ShardCounts.UnusableDataShardCount != 1 || !r.ShardCounts.RepairNeeded() {
-		return fmt.Sprintf("one byte changed beyond the first GiB: Verify counts %+v, want exactly 1 unusable slice", r.ShardCounts)
+		return fmt.Sprintf("one byte changed beyond the first 4 GiB: Verify counts %+v, want exactly 1 unusable slice", r.ShardCounts)
 	}
 	return ""
 }
@@ -278,7 +279,7 @@ func TestCheck(t *testing.T) {
 		// fixed scenarios (no parameters beyond their number) are recognised by their marker
 		var k int
 		switch {
-		case strings.HasPrefix(c.Index, "file of 2^30+4096 bytes"):
+		case strings.HasPrefix(c.Index, "file of 2^3"):
 			rec.Eval()
 			if msg := bigFileCase(); msg != "" {
 				rec.Fail("bigfile", c, "", msg)
@@ -306,6 +307,15 @@ func TestCheck(t *testing.T) {
 			do(c)
 		}
 	}
+	// two protected files that differ in six bits and have the same MD5 (published collision blocks): exchanged, or one turned into the other
+	md5files := []scen.FileSpec{{Name: "a.bin", Size: 200, Kind: "md5a", Seed: 5}, {Name: "b.bin", Size: 200, Kind: "md5b", Seed: 5}, {Name: "c.bin", Size: 100, Kind: "random", Seed: 6}}
+	for k, dmg := range [][]scen.Damage{{{Op: "swap", File: 0, Other: 1}}, {{Op: "md5twin", File: 0}}, {{Op: "md5twin", File: 1}}, {{Op: "md5twin", File: 0}, {Op: "md5twin", File: 1}}} {
+		if cfg.Mine(60 + k) {
+			rec.Class("md5-colliding-files")
+			do(scen.Case{Slice: 128, NRec: 2, GCreate: 1, GRepair: 1 + k%2, Files: md5files, Damage: dmg})
+			do(scen.Case{Slice: 64, NRec: 3, GCreate: 1, GRepair: 1, Files: md5files[:2], Damage: dmg, DelVolumes: []int{0, 1, 2, 3}})
+		}
+	}
 	for k := 0; k < 4; k++ {
 		if cfg.Mine(40 + k) {
 			rec.Eval()
@@ -331,9 +341,9 @@ func TestCheck(t *testing.T) {
 	}
 	if cfg.Thorough() && cfg.Shard == 3%cfg.NShards {
 		rec.Eval()
-		rec.Class("file>1GiB")
+		rec.Class("file>4GiB")
 		if msg := bigFileCase(); msg != "" {
-			rec.Fail("bigfile", scen.Case{Index: "file of 2^30+4096 bytes, slice size 64 MiB (fixed case, no parameters)"}, "", msg)
+			rec.Fail("bigfile", scen.Case{Index: "file of 2^32+4096 bytes, slice size 128 MiB (fixed case, no parameters)"}, "", msg)
 		}
 	}
 	cfg.SetRapid(cfg.N(900, 12000), 1)
